@@ -790,8 +790,8 @@ Proof.
     rewrite (Rsum_map_ext_in _ (fun a => snd a * Rsum (map snd d2))).
     + rewrite (Rsum_map_scal_r snd). reflexivity.
     + intros a _. rewrite map_map. simpl. numR. apply (Rsum_map_scal snd).
-  - unfold keys, joint_list. clear. induction d1 as [|a r IH]; simpl; [reflexivity|].
-    rewrite map_app, IH, !map_map. reflexivity.
+  - unfold keys, joint_list. clear. induction d1 as [|a r IH]; [reflexivity|].
+    cbn [flat_map map list_prod]. rewrite map_app, IH, !map_map. reflexivity.
 Qed.
 (* with duplicated events the dict comprehension keeps, per key, the LAST product (dget_of_pairs) *)
 Theorem joint_overwrite (d1 : list (K * R)) (d2 : list (K2 * R)) k :
